@@ -1,6 +1,6 @@
 (** * C10 - Blacklisting refunds in full and excludes; un-blacklisting restores. *)
 From LP Require Import Proofs.Tactics Proofs.LedgerBase Proofs.Gates Proofs.Frames Proofs.Settle Proofs.Confirm Proofs.Filter Proofs.Examples.
-From LP Require Import Proofs.Resume Proofs.Setup Proofs.BlacklistInv Proofs.SetupGt Proofs.BlacklistInvGt.
+From LP Require Import Proofs.Resume Proofs.Setup Proofs.BlacklistInv Proofs.SetupGt Proofs.BlacklistInvGt Proofs.SetupNft Proofs.SetupNgt Proofs.BlacklistInvNft.
 Open Scope N_scope.
 
 (** the blacklist loop processes the listed participants one by one with [bl_one] *)
@@ -103,6 +103,47 @@ Example C10_gt_nonvacuous :
   range (st gt2_bl_history) 4 <> None.
 Proof. split; [exact (proj1 gt2_bl_history_reachable)|]. vm_compute. repeat split; discriminate. Qed.
 
+(** ... and for the two contracts with an NFT fee, whose set-up histories also contain fee payments,
+    the SFT set-up and the fee refund on blacklisting: with the two pairs above, all eight contracts *)
+Theorem C10_blacklist_endpoint_any_contract : forall v we e w la w',
+  (forall a, blacklisted (st w) a = true -> confirmed (st w) a = 0) ->
+  blacklist_endpoint v we e w la = Ok w' ->
+  forall a, blacklisted (st w') a = true -> confirmed (st w') a = 0.
+Proof. exact BlInv_blacklist_any. Qed.
+
+Theorem C10_blacklisted_have_nothing_confirmed_nft : forall (H : list N -> list N) w,
+  setup_reach_nft H w -> forall a, blacklisted (st w) a = true -> confirmed (st w) a = 0.
+Proof. exact setup_reach_nft_BlInv. Qed.
+
+Theorem C10_blacklisted_have_nothing_confirmed_ngt : forall (H : list N -> list N) w,
+  setup_reach_ngt H w -> forall a, blacklisted (st w) a = true -> confirmed (st w) a = 0.
+Proof. exact setup_reach_ngt_BlInv. Qed.
+
+Theorem C10_from_deployment_nft : forall (H : list N -> list N) w0 lf wf ef bf w1,
+  setup_reach_nft H w0 ->
+  after_interrupted filter_tickets lf w0 = Some wf -> filter_tickets ef bf wf = Ok (w1, 0) ->
+  forall a, blacklisted (st w0) a = true ->
+    confirmed (st w1) a = 0 /\ range (st w1) a = None /\
+    (forall sf e, caller e = a -> exists k, claim_launchpad_tokens sf e w1 = Err k).
+Proof. exact deployed_blacklisted_excluded_nft. Qed.
+
+Theorem C10_from_deployment_ngt : forall (H : list N -> list N) w0 lf wf ef bf w1,
+  setup_reach_ngt H w0 ->
+  after_interrupted filter_tickets lf w0 = Some wf -> filter_tickets ef bf wf = Ok (w1, 0) ->
+  forall a, blacklisted (st w0) a = true ->
+    confirmed (st w1) a = 0 /\ range (st w1) a = None /\
+    (forall sf e, caller e = a -> exists k, claim_launchpad_tokens sf e w1 = Err k).
+Proof. exact deployed_blacklisted_excluded_ngt. Qed.
+
+(** non-vacuity: a reachable state of the combined contract in which participant 3 paid for a ticket
+    and the fee and was then blacklisted (refunded both), participant 2 untouched *)
+Example C10_ngt_nonvacuous :
+  setup_reach_ngt sha256 ngt_confirmed /\
+  blacklisted (st ngt_confirmed) 3 = true /\ confirmed (st ngt_confirmed) 3 = 0 /\
+  blacklisted (st ngt_confirmed) 2 = false /\ confirmed (st ngt_confirmed) 2 = 3 /\
+  nft_payers (st ngt_confirmed) = [2].
+Proof. split; [exact (proj1 ngt_confirmed_reachable)|]. vm_compute. repeat split. Qed.
+
 Print Assumptions C10_loop.
 Print Assumptions C10_blacklist_one.
 Print Assumptions C10_gate.
@@ -116,3 +157,9 @@ Print Assumptions C10_nonvacuous.
 Print Assumptions C10_blacklisted_have_nothing_confirmed_gt.
 Print Assumptions C10_from_deployment_gt.
 Print Assumptions C10_gt_nonvacuous.
+Print Assumptions C10_blacklist_endpoint_any_contract.
+Print Assumptions C10_blacklisted_have_nothing_confirmed_nft.
+Print Assumptions C10_blacklisted_have_nothing_confirmed_ngt.
+Print Assumptions C10_from_deployment_nft.
+Print Assumptions C10_from_deployment_ngt.
+Print Assumptions C10_ngt_nonvacuous.
